@@ -272,6 +272,56 @@ func c20(x *Ctx) {
 	}
 	c.Min(r4, 1)
 
+	// ---- clause 4b: integers are written with the encoder of their own signedness ---------------------------------
+	// (msgpack has distinct signed and unsigned families; int64(v) of a uint64 at or above 2^63 – trace/span ids,
+	// hashes – is forwarded as a negative number, and the other way round)
+	const r4b = "C20.integer-encoder-keeps-sign"
+	nInt := 0
+	for _, f := range x.PkgFuncs("types") {
+		eng.Instrs(f, func(in ssa.Instruction) {
+			cl, ok := in.(ssa.CallInstruction)
+			if !ok {
+				return
+			}
+			n := eng.CalleeName(cl)
+			if i := strings.LastIndex(n, "/"); i >= 0 && strings.Contains(n, "tinylib/msgp") {
+				n = n[i+1:]
+			}
+			signedEnc := strings.HasPrefix(n, "msgp.AppendInt") && n != "msgp.AppendIntf"
+			unsignedEnc := strings.HasPrefix(n, "msgp.AppendUint")
+			if !signedEnc && !unsignedEnc {
+				return
+			}
+			args := eng.CallArgs(cl)
+			if len(args) < 2 {
+				return
+			}
+			nInt++
+			cv, isConv := args[len(args)-1].(*ssa.Convert)
+			if !isConv {
+				return
+			}
+			from, ok1 := cv.X.Type().Underlying().(*types.Basic)
+			to, ok2 := cv.Type().Underlying().(*types.Basic)
+			if !ok1 || !ok2 || from.Info()&types.IsInteger == 0 || to.Info()&types.IsInteger == 0 {
+				return
+			}
+			fromUnsigned, toUnsigned := from.Info()&types.IsUnsigned != 0, to.Info()&types.IsUnsigned != 0
+			if fromUnsigned == toUnsigned {
+				return
+			}
+			// widening an unsigned value into a larger signed type keeps it
+			size := func(b *types.Basic) int64 { return types.SizesFor("gc", "amd64").Sizeof(b) }
+			if fromUnsigned && size(to) > size(from) {
+				return
+			}
+			c.Examined++
+			c.Violate(r4b, BaseName(f)+"/"+n, x.Pos(in), "a "+from.String()+" value is converted to "+to.String()+" and written with "+n+": values outside the common range (an unsigned value at or above 2^63, or a negative one) are forwarded as a different number than the client sent")
+		})
+	}
+	c.Examined += nInt
+	c.Hold(r4b, "types/integer-encoders", "types/payload.go", sprintf("%d integer encoder calls in package types, none fed through a sign-changing conversion", nInt))
+
 	// ---- clause 5: what is memoized for a client field is the decoded value itself ------------------------------
 	// (MarshalMsg prefers memoized values over the raw bytes, so anything done to a value between decoding and
 	// Payload.Set – a "normalisation" for the samplers' benefit – is forwarded to Honeycomb in place of the client's value)
